@@ -311,7 +311,7 @@ class World:
             ang, deg = ops.num(step["angle"]), bool(step.get("degrees"))
             fn = lambda val: model.model_rotate(val, ang, deg)  # noqa: E731
             args_rational = False
-            rel = 1e-9
+            rel = 1e-12
         else:
             fn = model.model_invert
             args_rational = True
